@@ -15,7 +15,7 @@ import driver
 import lanes
 
 PROPERTIES_FILE = "Properties/Properties_C04.v"
-COQ_DEPS = ["Proofs/Lane_iface.vo", "Proofs/CLane_main.vo", "Proofs/CLane_order.vo"]
+COQ_DEPS = ["Proofs/Lane_iface.vo", "Proofs/CLane_main.vo", "Proofs/CLane_order.vo", "Proofs/CLane_live.vo"]
 GEN_MODULES = ["Gen_dqstate", "Gen_lanesites", "Gen_once"]
 LEVEL = "proof"
 COQ_TIMEOUT = 2400
